@@ -1,5 +1,5 @@
 SPECIFICATION Spec
-CONSTANTS Stems <- StemsDef Roots <- RootsDef Cols <- Cols3 BaseSet <- BasesAll MaxOps = 4 NRows = 6
+CONSTANTS Stems <- StemsDef Roots <- RootsDef Cols <- Cols3 BaseSet <- BasesAll MaxOps = 4 Exts <- ExtsCsv NRows = 6
  Mut_NoDot = FALSE Mut_ReadUnfiltered = FALSE Mut_SharedSeen = FALSE Mut_BreakOnSeen = FALSE Mut_KeyWithDecoy = FALSE Mut_TempAppend = TRUE AsIs_BaseNames = FALSE
 PROPERTY LeftoversNeverMatter
 CHECK_DEADLOCK FALSE
